@@ -87,6 +87,7 @@ pub struct Atom {
     /// SQL three-valued truth on a row (None = NULL)
     pub eval: fn(&Row) -> Option<bool>,
     /// usable in a WHERE clause over the metrics table
+    #[allow(dead_code)]
     pub in_where: bool,
 }
 
@@ -160,6 +161,7 @@ pub fn canon_cp(p: &ColumnPredicate) -> String {
 }
 
 // ---------------------------------------------------- "other" operands -----
+#[allow(dead_code)]
 pub struct OtherKind {
     pub name: &'static str,
     /// usable against an Int64 timestamp column / a Timestamp(ns) column end to end
@@ -395,6 +397,7 @@ impl P {
             P::Not(a) => a.has_label(),
         }
     }
+    #[allow(dead_code)]
     pub fn depth(&self) -> usize {
         match self {
             P::And(a, b) | P::Or(a, b) => 1 + a.depth().max(b.depth()),
@@ -417,6 +420,7 @@ impl P {
             P::Not(a) => a.lits(out),
         }
     }
+    #[allow(dead_code)]
     pub fn labels(&self, out: &mut Vec<usize>) {
         match self {
             P::Label(k) => out.push(*k),
